@@ -28,6 +28,7 @@ type fpShape struct {
 	label     bool
 	dirAttr   bool   // task has dir: newdir (does not exist at first)
 	dirSh     bool   // with dirAttr: the task also has a dynamic variable, a precondition and a status check (commands that read-only modes still run)
+	selfEdit  bool   // the command rewrites a matched source (src/made.txt: orig -> made) while it runs
 	deferCmd  bool   // the task has a deferred shell command that writes a file
 	global    string // top-level method: differing from the task's own
 	broken    bool   // the Taskfile also has a task that cannot be compiled (for over a non-list var)
@@ -54,6 +55,9 @@ func fpBody(tag string, sh fpShape) string {
 		"      - 'echo start:"+tag+" >> {{.ROOT_DIR}}/trace.log'",
 		"      - 'if [ \"$KILL_AT\" = \"1\" ]; then kill -9 $$; fi; if [ \"$FAIL_AT\" = \"1\" ]; then exit 3; fi'",
 	)
+	if sh.selfEdit {
+		lines = append(lines, "      - 'echo made > {{.ROOT_DIR}}/src/made.txt'")
+	}
 	if sh.generates {
 		lines = append(lines, "      - 'cat {{.ROOT_DIR}}/src/*.txt > {{.ROOT_DIR}}/out.txt'")
 		if sh.gen2 {
@@ -94,6 +98,9 @@ func (sh fpShape) files() map[string]string {
 		return s + fpBody(tag, sh)
 	}
 	files := map[string]string{"src/a.txt": "1\n"}
+	if sh.selfEdit {
+		files["src/made.txt"] = "orig\n"
+	}
 	switch {
 	case sh.include:
 		files["Taskfile.yml"] = "version: '3'\nincludes:\n  inc: ./inc.yml\ntasks:\n  other:\n    cmds: ['true']\n"
@@ -471,6 +478,12 @@ func fpUnits(prop, tier string) []*Unit {
 				fpShape{name: "dir-attr-dynvar-precondition-status", method: m, dirAttr: true, dirSh: true}, fpShape{name: "deferred-command", method: m, deferCmd: true})
 		} else {
 			shapes = append(shapes, fpShape{name: "dep", method: m, dep: true}, fpShape{name: "two-generates", method: m, generates: true, gen2: true})
+			if m == "checksum" {
+				// (method timestamp is left out: a source written a millisecond after the run started
+				// carries a modification time that the coarse file-system clock may put before that
+				// start; every other event of these histories is separated by a full clock tick)
+				shapes = append(shapes, fpShape{name: "command-rewrites-a-source", method: m, selfEdit: true})
+			}
 			other := "timestamp"
 			if m == "timestamp" {
 				other = "none"
